@@ -215,3 +215,149 @@ Example C12_permute_nonvacuous :
   option_map pos (permute_vertices C12_witness [2; 0; 3; 1]) = Some [(4, 6); (2, 2); (4, 3); (6, 2)]%Z /\
   option_map edges (permute_vertices C12_witness [2; 0; 3; 1]) = Some [(1, 3); (3, 0); (0, 1); (1, 2)].
 Proof. split; vm_compute; reflexivity. Qed.
+
+(* ------------------------------------------------------------------ plaquettes persist *)
+(* (appended; supersedes the header remark that persistence is only spec-checked.)
+   Clause "in all three cases every plaquette of the input none of whose edges was removed is a plaquette
+   of the output with the same geometry".  Proofs: Proofs/SurgeryPersist{Lists,Geom,}.v.
+
+   Hypotheses: `good L` (indices in range, one crossing per edge, positive scale, no self-loops — C01's
+   input space) and `no_zero_vectors L = true` (no edge has the zero vector, i.e. no two distinct vertices
+   at the same place joined by a non-crossing edge).  The second one is the genericity that makes the
+   comparator ang_lt of the rotation system a strict weak order (exactly: co-transitive through a
+   non-zero vector, SurgeryPersistLists.ang_lt_cotrans), so that the stable insertion sort of a filtered
+   row is the filtered sort (sort_desc_filter); ties (parallel edges leaving in the same direction) are
+   allowed because the kept edge list is ascending.
+
+   Conclusion `persists_as L L' re rv p p' k` (Proofs/SurgeryPersist.v) says, for p' in the output's list:
+     k < n_sides p';  the cycle of p' rotated left by k places (rotk k) is the cycle of p renamed:
+     rotk k (p_edges p') = map re (p_edges p), rotk k (p_verts p') = map rv (p_verts p),
+     rotk k (p_dirs p') = p_dirs p, and the directed edge vectors agree place by place
+     (rotk k (plaq_vectors L' p') = plaq_vectors L p);  n_sides, p_winding and p_area2 are equal;
+     p_cnum p = p_cnum p' + 3 * p_area2 p' * scale * t for an integer vector t, i.e. the centre
+     p_cnum/(3 p_area2) is the same up to the lattice translation scale*t (the periodic image in which the
+     polygon is drawn is fixed by the start vertex; the sweep of the output may start the same cycle at
+     another dart).  re = rank in the ascending list of kept edge ids, rv = rank among kept vertices
+     (identity for cut_boundaries).
+   NOT covered: "cutting creates no new plaquettes" (still spec-checked only). *)
+From Koala Require Import Proofs.LatticeFacts Proofs.SurgeryPersistLists Proofs.SurgeryPersist.
+
+(* the general form: sub-lattice on any duplicate-free vertex list kv and any ascending edge list ke *)
+Theorem C12_plaquette_persists_sub : forall (L : lattice) (kv ke : list nat) (ps : list plaquette) (p : plaquette),
+  good L -> no_zero_vectors L = true -> valid_sub L kv ke -> StronglySorted lt ke ->
+  find_all_plaquettes L = Some ps -> In p ps -> (forall e, In e (p_edges p) -> In e ke) ->
+  exists ps' p' k,
+    find_all_plaquettes (sub_lattice L kv ke) = Some ps' /\ In p' ps' /\
+    persists_as L (sub_lattice L kv ke) (rank ke) (rank kv) p p' k.
+Proof. exact plaquette_persists_sub. Qed.
+Print Assumptions C12_plaquette_persists_sub.
+
+(* Lattice(vertices, edges[idx], crossing[idx]) for an ascending duplicate-free index list idx (what
+   cut_boundaries builds): positions unchanged, vertices not renumbered, edge e -> rank idx e *)
+Theorem C12_plaquette_persists_select : forall (L : lattice) (idx : list nat) (ps : list plaquette) (p : plaquette),
+  good L -> no_zero_vectors L = true -> StronglySorted lt idx -> (forall e, In e idx -> e < nE L) ->
+  find_all_plaquettes L = Some ps -> In p ps -> (forall e, In e (p_edges p) -> In e idx) ->
+  exists ps' p' k,
+    find_all_plaquettes (select_edges L idx) = Some ps' /\ In p' ps' /\
+    persists_as L (select_edges L idx) (rank idx) (fun v => v) p p' k.
+Proof. exact plaquette_persists_select. Qed.
+Print Assumptions C12_plaquette_persists_select.
+
+(* cut_boundaries: every plaquette none of whose edges crosses a selected boundary *)
+Theorem C12_plaquette_persists_cut : forall (L : lattice) (bx by_ : bool) (ps : list plaquette) (p : plaquette),
+  good L -> no_zero_vectors L = true -> find_all_plaquettes L = Some ps -> In p ps ->
+  (forall e, In e (p_edges p) -> crosses_selected bx by_ (cross_at L e) = false) ->
+  exists ps' p' k,
+    find_all_plaquettes (cut_boundaries L bx by_) = Some ps' /\ In p' ps' /\
+    persists_as L (cut_boundaries L bx by_) (rank (cut_kept L bx by_)) (fun v => v) p p' k.
+Proof. exact plaquette_persists_cut. Qed.
+Print Assumptions C12_plaquette_persists_cut.
+
+(* remove_vertices: every plaquette none of whose edges is in the reported list of removed edges *)
+Theorem C12_plaquette_persists_remove_vertices :
+  forall (L : lattice) (idx : list nat) (L' : lattice) (rep : list nat) (ps : list plaquette) (p : plaquette),
+  good L -> no_zero_vectors L = true -> Forall (fun i => i < nV L) idx ->
+  remove_vertices L idx = Some (L', rep) ->
+  find_all_plaquettes L = Some ps -> In p ps -> (forall e, In e (p_edges p) -> ~ In e rep) ->
+  exists ps' p' k,
+    find_all_plaquettes L' = Some ps' /\ In p' ps' /\
+    persists_as L L' (rank (kept_edges L idx)) (rank (kept_vertices L idx)) p p' k.
+Proof. exact plaquette_persists_remove_vertices. Qed.
+Print Assumptions C12_plaquette_persists_remove_vertices.
+
+(* remove_trailing_edges: EVERY plaquette of the input survives: none of its edges is removed (the edges of
+   a plaquette form a set without degree-one vertex, hence lie in the kept set by C12_trailing_spec) and it
+   is a plaquette of the pruned lattice.  (kv, ke) are the surviving original vertex / edge ids. *)
+Theorem C12_plaquette_persists_trailing : forall (L : lattice) (ps : list plaquette) (p : plaquette),
+  good L -> no_zero_vectors L = true -> find_all_plaquettes L = Some ps -> In p ps ->
+  exists kv ke ps' p' k,
+    remove_trailing_edges L = TrailDone (sub_lattice L kv ke) /\ trailing_survivors L = Some (kv, ke) /\
+    (forall e, In e (p_edges p) -> In e ke) /\
+    find_all_plaquettes (sub_lattice L kv ke) = Some ps' /\ In p' ps' /\
+    persists_as L (sub_lattice L kv ke) (rank ke) (rank kv) p p' k.
+Proof. exact plaquette_persists_trailing. Qed.
+Print Assumptions C12_plaquette_persists_trailing.
+
+(* the comparator fact behind the genericity hypothesis *)
+Theorem C12_ang_lt_cotransitive : forall y w x : vec,
+  w <> vzero -> ang_lt y x = true -> ang_lt y w = false -> ang_lt w x = true.
+Proof. exact ang_lt_cotrans. Qed.
+Print Assumptions C12_ang_lt_cotransitive.
+
+(* non-vacuity: a unit square with a diagonal and one boundary-crossing edge (id 1).  Both triangles are
+   plaquettes; none of their edges crosses the x boundary; cutting x removes edge 1, renumbers edges
+   2..5 to 1..4 and the two triangles are the plaquettes of the output (here with k = 0); removing vertex 3
+   reports edges 1,3,4 and keeps the first triangle *)
+Definition C12_persist_witness : lattice :=
+  mkLattice 8 [(0, 0); (4, 0); (4, 4); (0, 4)]%Z [(0, 1); (1, 3); (1, 2); (2, 3); (3, 0); (0, 2)]
+            [(0, 0); (1, 0); (0, 0); (0, 0); (0, 0); (0, 0)]%Z.
+Example C12_plaquette_persists_nonvacuous :
+  let L := C12_persist_witness in
+  good L /\ no_zero_vectors L = true /\
+  (exists p q, find_all_plaquettes L = Some [p; q] /\ p_edges p = [0; 2; 5] /\ p_edges q = [3; 4; 5] /\
+     (forall e, In e (p_edges p ++ p_edges q) -> crosses_selected true false (cross_at L e) = false) /\
+     cut_kept L true false = [0; 2; 3; 4; 5] /\
+     (exists p' q', find_all_plaquettes (cut_boundaries L true false) = Some [p'; q'] /\
+        persists_as L (cut_boundaries L true false) (rank (cut_kept L true false)) (fun v => v) p p' 0 /\
+        p_edges p' = [0; 1; 4] /\ p_edges q' = [2; 3; 4]) /\
+     (exists L' , remove_vertices L [3] = Some (L', [1; 3; 4]) /\
+        (forall e, In e (p_edges p) -> ~ In e [1; 3; 4]) /\ length (edges L') = 3)).
+Proof.
+  cbv zeta. split; [split; vm_compute; reflexivity|]. split; [vm_compute; reflexivity|].
+  eexists. eexists. split; [vm_compute; reflexivity|]. cbn [p_edges].
+  split; [reflexivity|]. split; [reflexivity|].
+  split; [intros e He; cbn in He; repeat (destruct He as [<-|He]; [vm_compute; reflexivity|]); destruct He|].
+  split; [vm_compute; reflexivity|]. split.
+  - eexists. eexists. split; [vm_compute; reflexivity|]. split; [|split; reflexivity].
+    unfold persists_as. repeat split; try (vm_compute; reflexivity).
+    + apply Nat.ltb_lt. vm_compute. reflexivity.
+    + exists (0, 0)%Z. vm_compute. reflexivity.
+  - eexists. split; [vm_compute; reflexivity|]. split; [|vm_compute; reflexivity].
+    intros e He Hr. cbn in He, Hr. repeat (destruct He as [<-|He]; [repeat (destruct Hr as [Hr|Hr]; [discriminate|]); destruct Hr|]).
+    destruct He.
+Qed.
+
+(* the genericity hypothesis cannot be dropped for the MODEL: with a zero-length edge (vertices 0 and 1 at the
+   same place, joined by edge 2) the model's comparator treats the zero vector as tied with every vector of
+   its half-plane, and deleting the dangling edge 0 reorders the row of vertex 0 ([5;0;2;1] becomes, in old
+   ids, [2;5;1]): the only plaquette (edges 1,5,4, none removed, not even touching the zero edge) is lost.
+   (In the implementation the zero vector has the numeric key alpha = 0, so its argsort is consistent; the
+   model is not faithful on such degenerate inputs, which the generators never produce.) *)
+Definition C12_zero_edge_witness : lattice :=
+  mkLattice 1 [(-1, -2); (-1, -2); (2, -1); (-2, -2); (2, 1)]%Z [(2, 0); (3, 0); (0, 1); (1, 4); (3, 4); (4, 0)]
+            [(0, 0); (0, 0); (0, 0); (0, 0); (0, 0); (0, 0)]%Z.
+Theorem C12_plaquette_persists_needs_no_zero_vectors :
+  exists L idx ps p,
+    good L /\ no_zero_vectors L = false /\ StronglySorted lt idx /\ (forall e, In e idx -> e < nE L) /\
+    find_all_plaquettes L = Some ps /\ In p ps /\ (forall e, In e (p_edges p) -> In e idx) /\
+    find_all_plaquettes (select_edges L idx) = Some [].
+Proof.
+  exists C12_zero_edge_witness, [1; 2; 3; 4; 5]. eexists. eexists.
+  split; [split; vm_compute; reflexivity|]. split; [vm_compute; reflexivity|].
+  split; [repeat constructor|].
+  split; [intros e He; cbn in He; repeat (destruct He as [<-|He]; [vm_compute; repeat constructor|]); destruct He|].
+  split; [vm_compute; reflexivity|]. split; [left; reflexivity|].
+  split; [|vm_compute; reflexivity].
+  intros e He. cbn in He. destruct He as [<-|[<-|[<-|[]]]]; cbn; auto 10.
+Qed.
+Print Assumptions C12_plaquette_persists_needs_no_zero_vectors.
